@@ -42,7 +42,7 @@ Qed.
 
 (* on the same individual the repaired cse() keeps [2,1] G 3 *)
 Definition w_new_verdict_b : bool :=
-  match cse_genome gene_cmp w_genome with
+  match cse_genome gene_cmp_mem w_genome with
   | Some g' => ind_ok_b w_ss 1 g' &&
                match cell g' 2 1 with Some ge => list_eqb Nat.eqb (g_args ge) [3] | None => false end
   | None => false
